@@ -67,10 +67,11 @@ func (c *RegConfig) ParseBlocklists() error {
 
 	c.covertBlocklistDomains = []*regexp.Regexp{}
 	for _, r := range c.CovertBlocklistDomains {
-		blockedDom := regexp.MustCompile(r)
-		if blockedDom != nil {
-			c.covertBlocklistDomains = append(c.covertBlocklistDomains, blockedDom)
+		blockedDom, err := regexp.Compile(r)
+		if err != nil {
+			return fmt.Errorf("covert_blocklist_domains: bad pattern %q: %w", r, err)
 		}
+		c.covertBlocklistDomains = append(c.covertBlocklistDomains, blockedDom)
 	}
 
 	c.phantomBlocklist = []*net.IPNet{}
